@@ -13,6 +13,7 @@ import (
 	_ "cuelang.org/go/internal/verif/h/c08"
 	_ "cuelang.org/go/internal/verif/h/c10"
 	_ "cuelang.org/go/internal/verif/h/c11"
+	_ "cuelang.org/go/internal/verif/h/c12"
 	_ "cuelang.org/go/internal/verif/h/c09"
 )
 
